@@ -580,7 +580,7 @@ fn run_interop(plan: &Plan, lib: &dyn Lib, rec: &mut Rec) {
     let sk_ref = refimpl::keygen(&ikm);
     for op in [Op::KeyFromHash, Op::KeyFromHashViaBls] {
         let out = rec.call(lib, g, op, &[&ikm]);
-        rec.case(&[3, g as u64, seed_len as u64, op as u64], false);
+        rec.case(&[3, g as u64, seed_len as u64, op as u64], seed_len < 32);
         rec.expect("C03", "keygen-equals-hkdf-construction", out.first() == Some(refimpl::scalar_to_be(&sk_ref).as_slice()), || {
             format!("keygen {:?} seed_len={} g={} | library key {} differs from HKDF-SHA-256 KeyGen {}", op, seed_len, g.name(), out.first().map(short).unwrap_or_default(), short(&refimpl::scalar_to_be(&sk_ref)))
         });
@@ -601,7 +601,7 @@ fn run_interop(plan: &Plan, lib: &dyn Lib, rec: &mut Rec) {
     for s in Scheme::ALL {
         let want = b.sign(s, &sk, &msg);
         let got = rec.call(lib, g, Op::Sign, &[&sk_bytes, &[s as u8], &msg]);
-        rec.case(&[3, g as u64, s as u64, kc, plan.get("msg_class") as u64], false);
+        rec.case(&[3, g as u64, s as u64, kc, plan.get("msg_class") as u64], kc < 4 || msg.len() > 255 || msg.is_empty());
         let want_bytes = refimpl::layout::tagged(s as u8, &want.to_bytes());
         rec.expect("C03", "signature-equals-reference", got.first() == Some(want_bytes.as_slice()), || {
             format!("sign scheme={} g={} key_class={} msg_len={} | library signature differs from the draft's CoreSign", scheme_name(s as u8), g.name(), kc, msg.len())
@@ -647,7 +647,7 @@ fn run_interop(plan: &Plan, lib: &dyn Lib, rec: &mut Rec) {
     let args: Vec<&[u8]> = sig_bytes.iter().map(|v| v.as_slice()).collect();
     let agg = rec.call(lib, g, Op::Aggregate, &args);
     let want = refimpl::layout::tagged(s as u8, &agg_ref.to_bytes());
-    rec.case(&[3, g as u64, s as u64, n as u64, repeat_adjacent as u64, 77], false);
+    rec.case(&[3, g as u64, s as u64, n as u64, repeat_adjacent as u64, 77], repeat_adjacent);
     rec.expect("C03", "aggregate-equals-reference", agg.first() == Some(want.as_slice()), || format!("aggregate scheme={} n={} g={} | Aggregate differs from the draft", scheme_name(s as u8), n, g.name()));
     let mut vargs: Vec<Vec<u8>> = vec![want.clone()];
     for (p, m) in &pairs {
